@@ -168,6 +168,11 @@ impl Env {
 	}
 
 	pub fn with_assembly(cfg: EnvCfg, assembly: Assembly) -> Env {
+		Self::with_opts(cfg, assembly, None)
+	}
+
+	/// `msg_buf`: `ServerConfig::set_message_buffer_capacity` (per-connection send queue), default if `None`.
+	pub fn with_opts(cfg: EnvCfg, assembly: Assembly, msg_buf: Option<u32>) -> Env {
 		let log: Log = Arc::new(Mutex::new(vec![]));
 		let ids = Arc::new(CounterIds(AtomicU64::new(0)));
 		let server_cfg = ServerConfig::builder()
@@ -175,8 +180,12 @@ impl Env {
 			.max_response_body_size(cfg.max_resp)
 			.set_batch_request_config(cfg.batch)
 			.max_subscriptions_per_connection(cfg.max_subs)
-			.set_id_provider(SharedIds(ids.clone()))
-			.build();
+			.set_id_provider(SharedIds(ids.clone()));
+		let server_cfg = match msg_buf {
+			Some(n) => server_cfg.set_message_buffer_capacity(n),
+			None => server_cfg,
+		}
+		.build();
 		let (stop, handle) = stop_channel();
 		let m = module(log.clone());
 		let methods: jsonrpsee::server::Methods = m.clone().into();
@@ -235,7 +244,14 @@ impl Env {
 
 	/// Open a WebSocket session over an in-memory duplex.
 	pub async fn ws(&self) -> WsPeer {
-		let (client, server) = tokio::io::duplex(1 << 22);
+		self.ws_opts(1 << 22, false).await
+	}
+
+	/// `dup`: capacity of each direction of the in-memory pipe; `gated`: the peer does not read
+	/// anything the server sends until `WsPeer::release` is called (back-pressure on the server's
+	/// send queue).
+	pub async fn ws_opts(&self, dup: usize, gated: bool) -> WsPeer {
+		let (client, server) = tokio::io::duplex(dup);
 		let stopped = self.handle.clone();
 		match self.assembly {
 			Assembly::Tower => {
@@ -284,7 +300,10 @@ impl Env {
 		let closed = Arc::new(Mutex::new(false));
 		let f2 = frames.clone();
 		let c2 = closed.clone();
+		let gate = Arc::new(tokio::sync::Semaphore::new(if gated { 0 } else { 1 }));
+		let g2 = gate.clone();
 		tokio::spawn(async move {
+			let _ = g2.acquire().await;
 			loop {
 				let mut data = Vec::new();
 				match receiver.receive_data(&mut data).await {
@@ -296,7 +315,7 @@ impl Env {
 				}
 			}
 		});
-		WsPeer { sender, frames, closed }
+		WsPeer { sender, frames, closed, gate }
 	}
 }
 
@@ -304,6 +323,7 @@ pub struct WsPeer {
 	sender: soketto::Sender<BufReader<BufWriter<tokio_util::compat::Compat<tokio::io::DuplexStream>>>>,
 	frames: Arc<Mutex<Vec<Vec<u8>>>>,
 	closed: Arc<Mutex<bool>>,
+	gate: Arc<tokio::sync::Semaphore>,
 }
 
 impl WsPeer {
@@ -314,6 +334,10 @@ impl WsPeer {
 			self.sender.send_text(std::str::from_utf8(data).unwrap()).await.unwrap();
 		}
 		self.sender.flush().await.unwrap();
+	}
+	/// let a gated peer start reading
+	pub fn release(&self) {
+		self.gate.add_permits(1);
 	}
 	pub fn take(&self) -> Vec<Vec<u8>> {
 		std::mem::take(&mut *self.frames.lock().unwrap())
